@@ -18,6 +18,7 @@ and exits 0 / 1 / 2.
 
 import hashlib
 import json
+import logging
 import os
 import random
 import shutil
@@ -189,6 +190,26 @@ class Ctx:
         }
 
 
+class _FormattingSink(logging.Handler):
+    """Formats every record (so that lazily evaluated log arguments are evaluated) and throws it away."""
+
+    def emit(self, record):
+        try:
+            record.getMessage()
+        except Exception:
+            pass
+
+
+def _set_debug_logging(on):
+    """Process-wide state the code under test must not depend on: every third case runs with DEBUG logging
+    effective for the package (as under `signac --debug` or logging.basicConfig(level=DEBUG))."""
+    lg = logging.getLogger("signac")
+    if not any(isinstance(h, _FormattingSink) for h in lg.handlers):
+        lg.addHandler(_FormattingSink(level=1))
+        lg.propagate = False
+    lg.setLevel(logging.DEBUG if on else logging.WARNING)
+
+
 def run_worker(mod, ctx, time_cap):
     """Run all cases of one shard."""
     ctx.deadline = time.time() + time_cap if time_cap else None
@@ -198,6 +219,10 @@ def run_worker(mod, ctx, time_cap):
             ctx._case = case
             n += 1
             ctx.count("cases")
+            debug = (n + ctx.seed) % 3 == 0
+            _set_debug_logging(debug)
+            if debug:
+                ctx.count("cases_with_debug_logging")
             try:
                 mod.run_case(ctx, case)
             except Exception:  # a harness error is inconclusive, never silently "held"
